@@ -188,6 +188,39 @@ def mapped_polys(g, tc, fc, variant):
     return out
 
 
+def reference_raster(geom_specs, per_geom, tc, fc, fill):
+    """(expected, decided) by the cell-centre rule in bin-index space, or None when some geometry is not an area type with a
+    valid image (then only the weak oracles apply)."""
+    import shapely
+
+    if not all(g["type"] in AREA for g in geom_specs):
+        return None
+    nt, nf = len(tc), len(fc)
+    exp = {}
+    for variant in ("a", "b"):
+        e = np.full((nt, nf), float(fill))
+        border = np.zeros((nt, nf), dtype=bool)
+        for g, v in zip(geom_specs, per_geom):
+            polys = mapped_polys(g, tc, fc, variant)
+            if polys is None:
+                return None
+            for poly in polys:
+                if poly.is_empty or poly.area == 0:
+                    continue
+                for i in range(nt):
+                    for j in range(nf):
+                        c = shapely.Point(i + 0.5, j + 0.5)
+                        if poly.boundary.distance(c) < 1e-9:
+                            border[i, j] = True
+                        elif poly.contains(c):
+                            e[i, j] = v
+                            border[i, j] = False
+        exp[variant] = (e, border)
+    ea, ba = exp["a"]
+    eb, bb = exp["b"]
+    return ea, (~ba) & (~bb) & (ea == eb)
+
+
 def check(spec, ctx):
     import shapely
     from soundevent import data
@@ -261,45 +294,32 @@ def check(spec, ctx):
             ctx.fail("all_touched=True lost cells that all_touched=False marks", spec, None, None, kind="all_touched")
 
     # exact oracle (cell-centre rule) for area geometries with a valid image in index space
-    if all(g["type"] in AREA for g in spec["geoms"]):
-        exp = {}
-        for variant in ("a", "b"):
-            e = np.full((nt, nf), float(fill))
-            border = np.zeros((nt, nf), dtype=bool)
-            ok = True
-            for g, v in zip(spec["geoms"], per_geom):
-                polys = mapped_polys(g, tc, fc, variant)
-                if polys is None:
-                    ok = False
-                    break
-                for poly in polys:
-                    if poly.is_empty or poly.area == 0:
-                        continue
-                    for i in range(nt):
-                        for j in range(nf):
-                            c = shapely.Point(i + 0.5, j + 0.5)
-                            if poly.boundary.distance(c) < 1e-9:
-                                border[i, j] = True
-                            elif poly.contains(c):
-                                e[i, j] = v
-                                border[i, j] = False
-            exp[variant] = (e, border) if ok else None
-        if exp["a"] is not None and exp["b"] is not None:
-            ea, ba = exp["a"]
-            eb, bb = exp["b"]
-            decided = (~ba) & (~bb) & (ea == eb)
-            ctx.label("exact_oracle")
-            bad = decided & (r_f != ea)
-            if np.any(bad):
-                i, j = np.argwhere(bad)[0]
-                ctx.fail(
-                    f"cell (time bin {i}, frequency bin {j}) holds {r_f[i, j]}, the cell-centre rule gives {ea[i, j]} (all_touched=False)",
-                    spec, r_f.tolist(), ea.tolist(), kind="cells",
-                )
-            if not spec["all_touched"]:
-                bad2 = decided & (got != ea)
-                if np.any(bad2):
-                    ctx.fail("requested call differs from the all_touched=False call", spec, got.tolist(), ea.tolist(), kind="cells")
+    ref = reference_raster(spec["geoms"], per_geom, tc, fc, fill)
+    if ref is not None:
+        ea, decided = ref
+        ctx.label("exact_oracle")
+        bad = decided & (r_f != ea)
+        if np.any(bad):
+            i, j = np.argwhere(bad)[0]
+            ctx.fail(
+                f"cell (time bin {i}, frequency bin {j}) holds {r_f[i, j]}, the cell-centre rule gives {ea[i, j]} (all_touched=False)",
+                spec, r_f.tolist(), ea.tolist(), kind="cells",
+            )
+        if not spec["all_touched"]:
+            bad2 = decided & (got != ea)
+            if np.any(bad2):
+                ctx.fail("requested call differs from the all_touched=False call", spec, got.tolist(), ea.tolist(), kind="cells")
+        # a window cut out of the template that was just used is rasterised on ITS axes
+        if nt >= 3:
+            lo, hi = 1, nt - (1 if nt >= 4 else 0)
+            win = arr.isel(time=slice(lo, hi))
+            wt = tc[lo:hi]
+            ref_w = reference_raster(spec["geoms"], per_geom, wt, fc, fill)
+            if ref_w is not None:
+                rw = rasterize(geoms, win, **kw_f).transpose("time", "frequency").values
+                ew, dw = ref_w
+                if rw.shape != ew.shape or np.any(dw & (rw != ew)):
+                    ctx.fail(f"window time[{lo}:{hi}] of a template that was already rasterised: cells differ from the cell-centre rule on the window's own axes", spec, rw.tolist(), ew.tolist(), kind="stale_template")
 
 
 SUBS = [
